@@ -171,6 +171,15 @@ impl Ctx {
             .collect()
     }
 
+    /// True once the given fraction of the time budget is used (lets a first workload leave time
+    /// for a second one).
+    pub fn out_of_budget_frac(&self, f: f64) -> bool {
+        match self.budget {
+            Some(b) => self.only_case.is_none() && self.start.elapsed().as_secs_f64() > b.as_secs_f64() * f,
+            None => false,
+        }
+    }
+
     pub fn out_of_budget(&self) -> bool {
         match self.budget {
             Some(b) => self.only_case.is_none() && self.start.elapsed() > b,
